@@ -115,6 +115,12 @@ def wf_package(pkg, netlisters=("spice", "spectre"), roundtrip=True):
             else:
                 problems.append(f"{where}: no target")
                 continue
+            pnames_ = [q.name for q in i.parameters]
+            if len(set(pnames_)) != len(pnames_):
+                problems.append(f"{where}: duplicate parameters {sorted(n for n in set(pnames_) if pnames_.count(n) > 1)}")
+            for q in i.parameters:
+                if q.value.WhichOneof("value") is None:
+                    problems.append(f"{where}: parameter {q.name!r} carries no value")
             cnames = [c.portname for c in i.connections]
             want = [p for p, _ in tports]
             if sorted(cnames) != sorted(want):
